@@ -499,7 +499,8 @@ class Parser:
         to a command, or the name of an existing routine, it's defining a new
         routine and not a variable.
         """
-        if self._context.has_routine(str(self._current_token)):
+        if (self._current_token.is_a(TokenTypes.NAME)
+                and self._context.has_routine(str(self._current_token))):
             return True
         if self._current_token.token_type.is_executable():
             return True
